@@ -45,7 +45,10 @@ EXPRS = ["1", "1+2", "-5", "[1, 2]", "'x'", "\"o'q\"", "1/0", "None", "os.sep", 
          "{'a': 1}", "0x10", "1e3", "7_", "1+", "True", "foo", "zzzq.w", "len", "int('3')", "v_=1", "import os",
          "(yield)", "5;6", "#c", "2 #c", "\n3", " 4", "raise", "sys.exit(3)", "[][0]", "...", "1 .real", "abc",
          "zzzq", "{**1}", "1if 1else 2", "0777", "b'x'", "2**10", "'a' 'b'", "(w_:=1)", "not 1", "str", "lambda: 0",
-         "__import__('os').sep", "os.path.join('a', 'b')", "undefined_name_1 + 1", "print(end='')"]
+         "__import__('os').sep", "os.path.join('a', 'b')", "undefined_name_1 + 1", "print(end='')",
+         # values for which `==` is useless (equal to anything / a comparison result without a truth value): the delivered
+         # object is identified by type and repr, never compared with ==
+         "unittest.mock.ANY", "unittest.mock.ANY", "c15eq.W", "c15eq.arange(3)", "c15eq.ANYTHING", "[unittest.mock.ANY]", "c15eq.W.n"]
 SHELL = ["o'q", "$HOME", "a;b", "*.py", "~/x", "a|b", "`ls`", "--x", "-5", "=", "fq_=1", "/usr/bin", "a\\b", "\u00e9",
          "*a", "a&&b", ">out", "-", "--", "-x=1", "--foo", "--foo=1", "?", "??", "a=b=c", "$(id)", "!ls", "%time", "'",
          "\"", "rm -rf /tmp/x", "a\nb", "--=", "---"]
@@ -375,7 +378,7 @@ def make_callable(sig, ckind):
 def canon(v):
     if isinstance(v, str):
         return "str:" + v
-    if isinstance(v, tuple) and len(v) == 2 and v[0] == "default" and isinstance(v[1], str):
+    if type(v) is tuple and len(v) == 2 and type(v[0]) is str and v[0] == "default" and type(v[1]) is str:
         return "default:" + v[1]
     return type(v).__name__ + ":" + re.sub(r"0x[0-9a-f]+", "0x?", repr(v))
 
@@ -521,6 +524,8 @@ def py_bind(plain, a, k):
 
 
 def impl_case(c):
+    from . import c15_main as _m
+    _m._setup()                      # helper modules (c15eq, c15rec, ...) importable by name
     if c["kind"] == "parse":
         import pyflyby._py as P
         f, plain = make_callable(c["sig"], c["ckind"])
@@ -621,6 +626,19 @@ def indep_eval(s):
             g[n] = importlib.import_module(n)
         except Exception:
             return ["raw"]
+    for node in ast.walk(tree):          # `pkg.sub.attr`: sub-modules are imported like `import pkg.sub` does
+        parts, cur = [], node
+        while isinstance(cur, ast.Attribute):
+            parts.append(cur.attr)
+            cur = cur.value
+        if parts and isinstance(cur, ast.Name) and cur.id in g:
+            dotted = cur.id
+            for a in reversed(parts):
+                dotted += "." + a
+                try:
+                    importlib.import_module(dotted)
+                except Exception:
+                    break
     err, out = sys.stderr, sys.stdout
     sys.stderr = sys.stdout = _Sink()
     try:
